@@ -253,5 +253,12 @@ fn get_activity_time(activity: &FormatActivity, stop_schedule: &FormatSchedule) 
 }
 
 fn get_route_start_time(tour: &FormatTour) -> Result<Timestamp, GenericError> {
-    tour.stops.first().map(|stop| parse_time(&stop.schedule().departure)).ok_or_else(|| "empty route".into())
+    // NOTE departure activity has its own time when other activities are performed at the departure stop
+    tour.stops
+        .first()
+        .map(|stop| {
+            let departure = stop.activities().first().and_then(|activity| activity.time.as_ref());
+            parse_time(departure.map_or(&stop.schedule().departure, |time| &time.end))
+        })
+        .ok_or_else(|| "empty route".into())
 }
